@@ -158,7 +158,7 @@ func init() {
 		},
 		NCases:       func(c *core.Ctx) int { return thorN(c, 2400, 40000) },
 		MustSee:      []string{"rest_state_checks", "calls_balanced", "together_vs_separately", "empty_input_probes", "idle_history_steps", "declaration_forms"},
-		CaseTimeoutS: 10,
+		CaseTimeoutS: 30,
 		Run:          c04Run,
 	})
 }
@@ -355,7 +355,7 @@ func c04History(c *core.Ctx, i int) *core.Result {
 			t = lang.Plain.Program(g.Program())
 		}
 		t = strings.TrimSpace(t) + "\n"
-		o := s.Eval(t, 1000000)
+		o := s.Eval(t, 150000)
 		res.Evals++
 		res.Ev("idle_history_steps", 1)
 		hist = append(hist, t)
